@@ -11,6 +11,16 @@ LEVEL = ("Mechanism level: requests are issued and streams canonicalised only on
 
 def check(ctx):
     F = ctx.facts("prod")
+    # a call addressed to another peer is never completed here: a host result is applied only to a met state whose stored
+    # sender is THIS peer (call ids are per-peer counters; without the guard a peer records its own result as Executed
+    # at another peer's call and its own call stays marked as sent forever)
+    ctx.clause("R-GUARD a host result is applied only to a met RequestSentBy whose stored sender is the current peer")
+    h_ = F.fn("prev_result_handler::handle_prev_state")
+    hp_ = Prov(h_)
+    rm_ = h_.calls_to("HashMap::remove")
+    g_ = common.eq_guard(h_, hp_, rm_[0].bb, lambda e: lib.mentions_field(e, "peer_id") and lib.mentions_param(e, "met_result"), common.is_current_peer) if len(rm_) == 1 else None
+    ctx.require(g_ is not None, "R-GUARD", "results:own-request-only", "call_results consulted only where %s" % g_,
+                "handle_prev_state consults call_results without the guard (sender of the met RequestSentBy == current peer): this peer would record a result for a call that is addressed to, and pending at, another peer")
     ctx.clause("R-GUARD call request only under tetraplet.peer_pk == current_peer_id; first canonicalisation only under peer_id == current_peer_id")
     ctx.clause("R-WRITERS next_peer_pks pushed to only in handle_remote_call and handle_unseen_canon")
     ctx.clause("R-PAIR/R-FLOW every RequestSentBy construction is preceded by pushing the addressed peer, on the != edge")
